@@ -51,19 +51,19 @@ double nondet_double(void);
 extern long verif_nd_log[VERIF_ND_MAX];
 extern double verif_nd_dlog[VERIF_ND_MAX];
 extern unsigned verif_nd_n, verif_nd_dn;
+/* the value used by the program is read back from the log, so that formula slicing keeps the log write of
+   every choice the failing assertion depends on */
 static inline long nd(void)
 {
-	long v = nondet_long();
-	if (verif_nd_n < VERIF_ND_MAX) verif_nd_log[verif_nd_n] = v;
-	verif_nd_n++;
-	return v;
+	unsigned i = verif_nd_n++;
+	if (i < VERIF_ND_MAX) { verif_nd_log[i] = nondet_long(); return verif_nd_log[i]; }
+	return nondet_long();
 }
 static inline double nd_double(void)
 {
-	double v = nondet_double();
-	if (verif_nd_dn < VERIF_ND_MAX) verif_nd_dlog[verif_nd_dn] = v;
-	verif_nd_dn++;
-	return v;
+	unsigned i = verif_nd_dn++;
+	if (i < VERIF_ND_MAX) { verif_nd_dlog[i] = nondet_double(); return verif_nd_dlog[i]; }
+	return nondet_double();
 }
 #else
 static inline long nd(void) { return nondet_long(); }
@@ -72,6 +72,10 @@ static inline double nd_double(void) { return nondet_double(); }
 #endif
 
 /* typed conveniences; every symbolic choice in every harness and stub goes through nd() */
+#ifndef VERIF_REPLAY
+#pragma CPROVER check push
+#pragma CPROVER check disable "conversion"
+#endif
 static inline int nd_int(void) { return (int)nd(); }
 static inline unsigned nd_uint(void) { return (unsigned)nd(); }
 static inline uint8_t nd_u8(void) { return (uint8_t)nd(); }
@@ -80,6 +84,9 @@ static inline uint32_t nd_u32(void) { return (uint32_t)nd(); }
 static inline uint64_t nd_u64(void) { return (uint64_t)nd(); }
 static inline size_t nd_size(void) { return (size_t)nd(); }
 static inline bool nd_bool(void) { return (nd() & 1) != 0; }
+#ifndef VERIF_REPLAY
+#pragma CPROVER check pop
+#endif
 /* value in [lo, hi] */
 static inline long nd_range(long lo, long hi) { long v = nd(); __CPROVER_assume(v >= lo && v <= hi); return v; }
 
